@@ -62,6 +62,22 @@ def judge(prop, runs, oracle_fns, allow_results=("ok", "err"), expect_valid=True
         cx = oracles.Ctx(w, rr, r["ce"])
         stats["result " + rr.result] += 1
         stats["threads %d" % w.threads] += 1
+        stats["stream " + r["sc"].tag] += 1
+        # environment features of the world (how often the generators produced them)
+        if w.notes.get("spell"):
+            stats["directory arguments respelled (%s)" % w.notes["spell"]] += 1
+        if w.notes.get("scan_via_symlink"):
+            stats["a scan root given through a symbolic link"] += 1
+        if getattr(w, "export_arg", None):
+            stats["export argument through a link and '..'"] += 1
+        if tuple(w.export)[-1:] != (b"export",):
+            stats["directory names that are not valid UTF-8"] += 1
+        if any(k[-1].startswith((b"\xff\xfe", b"\xfe\xff")) for k in w.files):
+            stats["candidate names that are not valid UTF-8"] += 1
+        if any(v[0] == "symlink" and k[:len(w.export)] == tuple(w.export) for k, v in w.files.items()):
+            stats["an export file that is a symbolic link"] += 1
+        if getattr(rr, "outside", None) is not None:
+            stats["run under strace"] += 1
         bad = None
         if rr.result not in allow_results:
             bad = "the run did not return a result: %s %s" % (rr.result, getattr(rr, "result_msg", "") or rr.stderr[-300:])
